@@ -134,6 +134,9 @@ func c10Case(c *vc.Ctx, idx int) {
 	// this worker's share of the type list: case idx handles types[idx % len] and the pairs starting with it
 	ti := idx % len(types)
 	typ := types[ti]
+	// fee fields of the next transaction built: a payer other than the signer is a second required signer (refused
+	// everywhere, the block message included); the signer named as its own payer, or a granter, adds no signer
+	var payer, granter *c10Signer
 	build := func(tys []string, sg c10Signer, second *c10Signer, memo, tmo, sigv string) (c10Tx, bool) {
 		H := uint64(ch.Height)
 		t := c10Tx{types: tys, signer: sg.name, memo: memo, timeout: tmo, sig: sigv, addr: sg.addr}
@@ -176,6 +179,23 @@ func c10Case(c *vc.Ctx, idx int) {
 			n2, s2, _ := ch.Account(second.addr)
 			spec.Extra = []world.ExtraSigner{{Priv: second.priv, AccNum: n2, Seq: s2}}
 		}
+		twoSigners := second != nil
+		feeNote := ""
+		if payer != nil {
+			spec.FeePayer = payer.addr
+			feeNote = " fee-payer=" + payer.name
+			if !payer.addr.Equals(sg.addr) {
+				n2, s2, _ := ch.Account(payer.addr)
+				spec.Extra = append(spec.Extra, world.ExtraSigner{Priv: payer.priv, AccNum: n2, Seq: s2})
+				twoSigners = true
+			} else {
+				feeNote = " fee-payer=itself"
+			}
+		}
+		if granter != nil {
+			spec.FeeGranter = granter.addr
+			feeNote += " fee-granter=" + granter.name
+		}
 		raw, err := w.SignTx(spec)
 		if err != nil {
 			return t, false
@@ -188,7 +208,7 @@ func c10Case(c *vc.Ctx, idx int) {
 			}
 		}
 		t.isBlock = len(tys) == 1 && strings.HasSuffix(tys[0], "MsgNewEthBlock")
-		base := sg.exists && sigv == "valid" && memo == "" && second == nil
+		base := sg.exists && sigv == "valid" && memo == "" && !twoSigners
 		door := base && allBridge && sg.name == "relayer-proposer"
 		t.expCheck, t.expBlock = 0, 0
 		if door {
@@ -225,7 +245,10 @@ func c10Case(c *vc.Ctx, idx int) {
 				t.expBlock = 1
 			}
 		}
-		t.desc = fmt.Sprintf("%v signer=%s memo=%q timeout=%s sig=%s", shortTypes(tys), sg.name, memo, tmo, sigv)
+		t.desc = fmt.Sprintf("%v signer=%s memo=%q timeout=%s sig=%s%s", shortTypes(tys), sg.name, memo, tmo, sigv, feeNote)
+		if feeNote != "" {
+			c.Count("transactions_with_fee_payer_or_granter", 1)
+		}
 		return t, true
 	}
 	var txs []func() (c10Tx, bool) // built lazily: height and sequences move while the list is worked off
@@ -275,6 +298,27 @@ func c10Case(c *vc.Ctx, idx int) {
 	for _, t2 := range types[:min(len(types), 4)] {
 		t2 := t2
 		txs = append(txs, func() (c10Tx, bool) { return build([]string{typ, t2}, signers[0], &signers[1], "", "none", "valid") })
+	}
+	// fee payer / granter named in the envelope
+	withFee := func(p, g *c10Signer, tys []string, sg c10Signer, tmo string) {
+		txs = append(txs, func() (c10Tx, bool) {
+			payer, granter = p, g
+			defer func() { payer, granter = nil, nil }()
+			return build(tys, sg, nil, "", tmo, "valid")
+		})
+	}
+	withFee(&signers[1], nil, []string{typ}, signers[0], "none")
+	withFee(&signers[0], nil, []string{typ}, signers[0], "none")
+	withFee(nil, &signers[1], []string{typ}, signers[0], "none")
+	if strings.HasSuffix(typ, "MsgNewEthBlock") {
+		withFee(&signers[0], nil, []string{typ}, signers[2], "next-height")
+		withFee(&signers[1], nil, []string{typ}, signers[0], "next-height")
+		withFee(&signers[2], nil, []string{typ}, signers[2], "next-height")
+		withFee(nil, &signers[0], []string{typ}, signers[2], "next-height")
+		withFee(&signers[3], nil, []string{typ}, signers[2], "next-height")
+	} else if c.Thorough() {
+		withFee(&signers[2], nil, []string{typ}, signers[0], "next-height")
+		withFee(&signers[3], nil, []string{typ}, signers[0], "none")
 	}
 	sample := 0
 	for _, mk := range txs {
